@@ -101,6 +101,21 @@ def run(tier, seed):
                     ck.violation({"clause": "end_stencil", "impl": tag, "slice": "first" if j == 0 else "last"},
                                  "slice %d: sensitivities (%r, %r), kernels with the exact gradient (%r, %r)" % (j, gm[j], gk[j], pm, pk), det)
                     break
+        # a second grid with the same number of points and the same end points but another interior point (call sequences over grids
+        # that differ only inside): y1 stays linear in r, so the kernels at the moved point are known in closed form
+        if ri % 3 == 0:
+            r_mid = rr + 0.1 * h
+            radius2 = np.array([rr - h, r_mid, rr + h_up])
+            sol2 = sol.copy()
+            sol2[0] = [y1c - h * dc, y1c + 0.1 * h * dc, y1c + h_up * dc]
+            gm2 = sensitivity_to_shear(sol2, radius2, np.full(3, muc), np.full(3, kbc), l)
+            gk2 = sensitivity_to_bulk(sol2, radius2, np.full(3, muc), np.full(3, kbc), l)
+            pm2, pk2 = kernels_py(complex(sol2[0, 1]), dc, y2c, y3c, y4c, muc, kbc, r_mid, l)
+            sc2 = max(abs(pm2), abs(pk2), 1.0)
+            ck.case(("grid_sequence", ri), True)
+            if max(abs(gm2[1] - pm2), abs(gk2[1] - pk2)) / sc2 > 1e-10:
+                ck.violation({"clause": "grid_sequence"}, "after a call on the grid %s, a call on %s (same size and end points) gives sensitivities (%r, %r) at the moved point, the kernels with the exact gradient are (%r, %r)" % (
+                    radius.tolist(), radius2.tolist(), gm2[1], gk2[1], pm2, pk2), det)
         # heating profile formula
         ecc, n_orb, a_sma, Mh = 0.05, 2.0e-5, 4.0e8, 1.9e27
         sens_in = np.array([e_mu] * 3)
